@@ -43,15 +43,37 @@ FOCUS_FILES = ('openhtf/core/test_executor.py', 'openhtf/core/phase_executor.py'
 LINE_WATCH = ('abort', '_execute_test_teardown', '_finalize', 'stop')
 
 
+OVER = [False]      # set when execute() has returned: lets a deliberately deaf body end
+
+
 def build(program, log):
   h, pe, td, te, ts, th = mods()
 
-  def mk(name, kind, rets=None):
+  def mk(name, kind, rets=None, deaf=False, waits=False):
     counter = {'n': 0}
 
     def body(test):
       counter['n'] += 1
       runtime.vlog('body-start', name, kind, counter['n'])
+      if waits:
+        # a teardown that waits for something that never comes: only a cancellation (or its own timeout) ends it
+        try:
+          while not OVER[0]:
+            runtime.yield_point('b1:' + name)
+            time.sleep(70.0)         # (few, long waits: few moments at which the explorer may place the second abort)
+        except th.ThreadTerminationError:
+          runtime.vlog('body-killed', name, kind, time.monotonic())
+          raise
+        return None
+      if deaf:
+        # stuck where the termination request cannot end it (a blocking call in C): the executor has to leave it behind
+        while not OVER[0]:
+          try:
+            runtime.yield_point('b1:' + name)
+            time.sleep(0.5)
+          except th.ThreadTerminationError:
+            runtime.vlog('body-kill-ignored', name, kind)
+        return None
       try:
         runtime.yield_point('b1:' + name)
         time.sleep(0.01)
@@ -85,6 +107,12 @@ def build(program, log):
     nodes = [with_plug(mk('a', 'main')), mk('b', 'main'), mk('c', 'main')]
   elif program == 'group':
     nodes = [h.PhaseGroup(setup=[with_plug(mk('s', 'setup'))], main=[mk('m1', 'main'), mk('m2', 'main')],
+                          teardown=[mk('t1', 'teardown'), mk('t2', 'teardown')]), mk('after', 'main')]
+  elif program == 'group_tdwait':
+    nodes = [h.PhaseGroup(setup=[with_plug(mk('s', 'setup'))], main=[mk('m1', 'main')],
+                          teardown=[mk('tw', 'teardown', waits=True), mk('t2', 'teardown')]), mk('after', 'main')]
+  elif program == 'group_deaf':
+    nodes = [h.PhaseGroup(setup=[with_plug(mk('s', 'setup'))], main=[mk('m1', 'main', deaf=True), mk('m2', 'main')],
                           teardown=[mk('t1', 'teardown'), mk('t2', 'teardown')]), mk('after', 'main')]
   elif program == 'repeat':
     nodes = [with_plug(mk('r', 'main', rets=[h.PhaseResult.REPEAT, h.PhaseResult.REPEAT])), mk('z', 'main')]
@@ -158,7 +186,7 @@ def scenario(program, aborts, via, mode=None):
     recs = []
 
     def cb(rec):
-      runtime.vlog('callback', rec.outcome.name if rec.outcome else None)
+      runtime.vlog('callback', rec.outcome.name if rec.outcome else None, time.monotonic())
       recs.append(rec)
 
     test.add_output_callbacks(cb)
@@ -176,7 +204,7 @@ def scenario(program, aborts, via, mode=None):
       def aborter():
         for i in range(aborts):
           gates[i].wait()           # opened by the explorer: "the operator aborts now"
-          runtime.vlog('abort-call', i)
+          runtime.vlog('abort-call', i, time.monotonic())
           test.abort_from_sig_int()
           runtime.vlog('abort-return', i)
 
@@ -206,6 +234,7 @@ def scenario(program, aborts, via, mode=None):
       sched.signals_left = aborts
     res = None
     reexec = None
+    OVER[0] = False
     runtime.vlog('execute-call')
     try:
       res = test.execute(test_start=test_start)
@@ -213,6 +242,7 @@ def scenario(program, aborts, via, mode=None):
       res = 'KeyboardInterrupt'
     finally:
       sched.signals_left = 0
+      OVER[0] = True
     runtime.vlog('execute-return', res)
     n_first = len(recs)
     if via == 'sigint' and res == 'KeyboardInterrupt' and not recs and not any(e[0] == 'body-start' for e in sched.events):
@@ -411,6 +441,21 @@ def _analyse_raw(cfg, ex):
     for i, e in enumerate(ev):
       if e[0] == 'body-start' and e[2] == 'teardown' and i > second:
         out.append(('teardown-after-second-abort', 'teardown body %s started after the second abort() returned' % e[1]))
+  if program == 'group_tdwait' and via == 'thread' and aborts == 2:
+    # a second abort issued while the waiting teardown phase runs cancels it: the run is over within cancel_timeout_s
+    # (2 s) and some slack -- not when the teardown phase reaches its own timeout (180 s)
+    calls = [i for i, e in enumerate(ev) if e[0] == 'abort-call']
+    tw_start = [i for i, e in enumerate(ev) if e[0] == 'body-start' and e[1] == 'tw']
+    tw_over = [i for i, e in enumerate(ev) if (e[0] in ('body-killed', 'body-end') and e[1] == 'tw') or
+               (e[0] == 'async_exc' and '(tw)' in str(e[1])) or e[0] in ('plug-teardown-begin', 'execute-return')]
+    if len(calls) == 2 and tw_start and tw_start[0] < calls[1] and (not tw_over or calls[1] < min(x for x in tw_over if x > tw_start[0])):
+      cbs = [e for e in ev if e[0] == 'callback']
+      t_abort = ev[calls[1]][2]
+      if not cbs:
+        out.append(('second-abort-did-not-cancel-teardown', 'second abort while the teardown phase tw ran: the run never ended'))
+      elif cbs[0][2] - t_abort > 10.0:
+        out.append(('second-abort-did-not-cancel-teardown', 'second abort while the waiting teardown phase tw ran: the record was '
+                    'output %.1f virtual seconds later (cancel_timeout_s is 2 s; tw\'s own timeout 180 s)' % (cbs[0][2] - t_abort)))
   if v['res'] not in (True, False, 'KeyboardInterrupt'):
     out.append(('bad-return', 'execute() returned %r' % (v['res'],)))
   if v['state_left']:
@@ -421,6 +466,8 @@ def _analyse_raw(cfg, ex):
 # per program: groups as (setup names, main names incl. nested, direct teardown phase names)
 GROUPS = {
     'group': [(['s'], ['m1', 'm2'], ['t1', 't2'])],
+    'group_deaf': [(['s'], ['m1', 'm2'], ['t1', 't2'])],
+    'group_tdwait': [(['s'], ['m1'], ['tw', 't2'])],
     'nested_main': [(['s'], ['m1', 's2', 'n1', 'u1', 'm2'], ['t1']), (['s2'], ['n1'], ['u1'])],
     # (the group nested in the teardown is itself a teardown node of the outer group: all of it runs, once)
     'nested_td': [(['s'], ['m1'], ['t1', 's2', 'n1', 'u1', 't2']), (['s2'], ['n1'], ['u1'])],
@@ -507,7 +554,7 @@ def configs(tier):
     return [(('plain3', 1, 'thread', 'wide'), 0), (('group', 1, 'thread', 'wide'), 0), (('trigger', 1, 'thread', 'wide'), 0),
             (('repeat', 1, 'thread', 'wide'), 0), (('subtest', 1, 'thread', 'wide'), 0),
             (('group', 1, 'thread', 'main'), 1), (('group', 2, 'thread', 'body'), 0), (('plain3', 1, 'sigint'), 1),
-            (('group', 2, 'sigint', 'free'), 0), (('group', 2, 'thread', 'tdgap'), 1), (('nested_td', 1, 'thread', 'wide'), 0)]
+            (('group', 2, 'sigint', 'free'), 0), (('group', 2, 'thread', 'tdgap'), 1), (('nested_td', 1, 'thread', 'wide'), 0), (('group_tdwait', 2, 'thread', 'body'), 0)]
   return [(('plain3', 1, 'thread', 'all'), 1), (('group', 1, 'thread', 'all'), 1), (('trigger', 1, 'thread', 'all'), 1),
           (('repeat', 1, 'thread', 'all'), 1), (('subtest', 1, 'thread', 'all'), 1), (('group', 1, 'thread', 'body'), 2),
           (('group', 2, 'thread', 'wide'), 0), (('group', 2, 'thread', 'body'), 1), (('plain3', 2, 'thread', 'body'), 1),
@@ -519,6 +566,7 @@ def configs(tier):
 
 def run(tier):
   rep = common.Report(PID, tier, 'model_checking')
+  explore.set_plan(common.thorough_budget(tier, 900.0), len(configs(tier)))
   for cfg, bound in configs(tier):
     # 'tdgap' (first abort in a main body, second between two teardown nodes, the aborting thread preemptible inside
     # abort()) is explored deviation-bounded: with free forced switches its 6 threads explode
